@@ -265,7 +265,7 @@ struct RefsWorld : World {
 				if (lib[k]) break;
 				uint64_t fired = 0;
 				if (k == 0) { Sut su(failn); lib[k] = mpt_reply_deferrable(4, lib_send, 0); fired = g.fired; }
-				else if (k == 1) { Sut su(failn); lib[k] = mpt_rawdata_create(-1); fired = g.fired; }
+				else if (k == 1) { Sut su(failn); lib[k] = mpt_rawdata_create((op.c & 64) ? 3 : -1); fired = g.fired; }      // with or without a limit of three stages
 				else if (k == 2) { int v = 42; Sut su(failn); lib[k] = metatype::generic::create('i', &v); fired = g.fired; }
 				else if (k == 4 || k == 5) { std::string t(k == 4 ? 5 : 300, 'm'); const char *cs = t.c_str(); value v; v.set('s', &cs); Sut su(failn); lib[k] = mpt_meta_new(&v); fired = g.fired; }
 				else if (k == 6) { CArr a = {0}; { Sut su; mpt_array_append(AR(a), 12, "hello world"); } { Sut su(failn); lib[k] = mpt_meta_buffer(AR(a)); fired = g.fired; } { Sut su; mpt_array_clone(AR(a), 0); } }
@@ -304,7 +304,9 @@ struct RefsWorld : World {
 						value v; v.set(MPT_type_toVector('d'), &vec);
 						valdest vd; vd.cycle = (y >> 8) % 3; vd.offset = (y >> 12) % 4;
 						int rc; bool fired; { Sut su(failn); rc = rd->modify((y >> 16) % 3, v, &vd); fired = g.fired; }
+						long st0 = rd->stage_count();
 						int adv = -1; if (y & 0x100000) { Sut su(failn); adv = rd->advance(); fired = fired || g.fired; }
+						long st1 = rd->stage_count(); if (st1 > st0 + 1 || st1 < st0) fail("wrong-content", "raw data: advance changed the number of stages from %ld to %ld", st0, st1);
 						log.ev("    raw data: modify -> %d, advance -> %d%s", rc, adv, fired ? " (allocation failed)" : "");
 						if (rc >= 0) st.hit("probe:rawdata_filled"); if (fired) st.hit("fault:allocfail");
 					}
